@@ -98,10 +98,10 @@ type CeremonySim struct {
 	BeforeFinal func()                          // the next block will finish the validation
 	OnRefused   func(res *BlockResult)          // a replica refused a block
 	Stopped     bool                            // a block was refused: the world is no longer usable
-	ForceChain3 bool                            // build the 3-link transitive delegation chain in every epoch
-	NoChain     bool                            // never build transitive delegation chains
+	ChainLinks  int                             // transitive delegation shape to build this epoch: 0 none, 2 = A->P->Q, 3 = A->P->Q->R
 	Reliable    map[common.Address]bool         // senders whose txs are never lost or delayed (besides node owners)
 	Included    map[string]int
+	Debug       bool
 }
 
 func NewCeremonySim(w *World, r *verifutil.Rng, rep *verifutil.Report) *CeremonySim {
@@ -158,7 +158,11 @@ func (s *CeremonySim) deliver(r *Replica, raw []byte) error {
 		return err
 	}
 	r.enter()
-	return r.TxPool.AddExternalTxs(validation.InboundTx, tx)
+	err := r.TxPool.AddExternalTxs(validation.InboundTx, tx)
+	if err != nil && s.Debug {
+		s.Rep.Count("dbg_deliver_"+TxName(tx.Type)+"_"+ErrClass(err), 1)
+	}
+	return err
 }
 
 // flush delivers what is due, per replica in a PRNG order.
@@ -292,7 +296,7 @@ func (s *CeremonySim) PreLottery() bool {
 
 	// 1. invitations by god and by identities that hold invites
 	nInv := r.Range(3, 5)
-	if s.ForceChain3 && nInv < 4 {
+	if s.ChainLinks > 0 && nInv < 4 {
 		nInv = 4
 	}
 	for i := 0; i < nInv; i++ {
@@ -369,8 +373,7 @@ func (s *CeremonySim) PreLottery() bool {
 	}
 	validated := func(id state.Identity) bool { return id.State.NewbieOrBetter() }
 	var A, P, Q, R *Actor
-	wantChain := (s.ForceChain3 || r.Intn(2) == 0) && !s.NoChain
-	if wantChain {
+	if s.ChainLinks >= 2 {
 		if len(cands) >= 2 && r.Intn(3) != 0 {
 			A, P = cands[0], cands[1]
 		} else {
@@ -383,7 +386,7 @@ func (s *CeremonySim) PreLottery() bool {
 		if A != nil && P != nil {
 			used[A.Addr], used[P.Addr] = true, true
 			Q = free(used, validated)
-			if Q != nil {
+			if Q != nil && s.ChainLinks >= 3 {
 				used[Q.Addr] = true
 				R = free(used, validated)
 				if R != nil {
@@ -484,8 +487,12 @@ func (s *CeremonySim) submitFlips() {
 				want = int(id.RequiredFlips) // no extra flips
 			}
 		}
-		if a == w.God && max == 0 {
-			want = 2 // god may author flips without a quota while the network is small
+		if a == w.God {
+			if want < 6 && id.RequiredFlips == 0 {
+				want = 6 // god may author flips without a quota while the network is small
+			}
+		} else if id.GetTotalWordPairsCount() == 0 {
+			continue // no key word pairs yet (RequiredFlips == 0): a flip tx would be refused as invalid payload
 		}
 		usedPairs := map[uint8]bool{}
 		for _, f := range id.Flips {
@@ -523,7 +530,6 @@ func (s *CeremonySim) submitFlips() {
 			own.FromBytes(raw)
 			if err := entry.Real().Flipper.AddNewFlip(&types.Flip{Tx: own, PublicPart: pub, PrivatePart: priv}, true); err != nil {
 				s.Rep.Count("flip_refused_by_flipper", 1)
-				s.Rep.Note("flip refused: %v (state %d, flips %d, required %d)", err, id.State, len(id.Flips), id.RequiredFlips)
 				continue
 			}
 			s.Gossip(tx)
